@@ -91,6 +91,8 @@ pub struct WorldD {
     v1_migrated_without_default: bool,
     in_seq: u64,
     rebooked: std::collections::BTreeSet<(String, String)>,
+    /// governance address named at instantiation
+    cfg_gov: String,
 }
 
 fn ack_ok() -> Binary {
@@ -948,6 +950,25 @@ impl WorldD {
                 }
             }
         }
+        // and every current item is listed: a token the point query reports as allowed is an item of the listing
+        let mut cands: Vec<String> = self.tokens.clone();
+        cands.push(self.fake_token.clone());
+        for i in 0..4 {
+            cands.push(addr_of(&format!("sometoken{}", i)));
+        }
+        for c in cands {
+            if let Ok(q) = chain.query::<cw20_ics20::msg::AllowedResponse>("ics20", &json!({"allowed":{"contract": c}})) {
+                if q.is_allowed && !expected.iter().any(|e| e.0 == c) {
+                    self.viol(
+                        out,
+                        "C20",
+                        "cw20-ics20-list-allowed/current-item-not-listed",
+                        json!({"list":"list_allowed"}),
+                        format!("{}: Allowed says is_allowed (gas limit {:?}) but ListAllowed does not return it", c, q.gas_limit),
+                    );
+                }
+            }
+        }
         *self.meter.probes.entry("c20_pages_walked").or_insert(0) += pages;
         self.meter.flag("c20_probed");
     }
@@ -1273,12 +1294,25 @@ impl World for WorldD {
             v1_migrated_without_default: false,
             in_seq: 0,
             rebooked: Default::default(),
+            cfg_gov: init["gov_contract"].as_str().unwrap_or("").to_string(),
         };
         if w.ics_ok {
             w.meter.flag("instantiated");
             let mut pend = vec![];
             w.chain.advance(1, w.cfg.spb);
             w.check_state(false, &mut pend);
+            // "the governance address" is the one named at instantiation
+            let want = w.cfg_gov.clone();
+            let have = w.obs.as_ref().and_then(|o| o.snap.admin.clone());
+            if w.on("C18") && have.as_deref() != Some(want.as_str()) {
+                w.viol(
+                    &mut pend,
+                    "C18",
+                    "governance-ne-configured",
+                    json!({"when": "instantiate"}),
+                    format!("instantiated with gov_contract {} but the contract reports governance {:?}", want, have),
+                );
+            }
             w.pending = pend;
         }
         w
@@ -1361,6 +1395,7 @@ impl World for WorldD {
                     };
                     let cw2 = |v: &str| -> Binary { format!("{{\"contract\":\"crates.io:cw20-ics20\",\"version\":\"{}\"}}", v).into_bytes().into() };
                     let mut undo: Vec<(Binary, Option<Binary>)> = vec![];
+                    let mut v1_gov: Option<String> = None;
                     if sc == "v1" {
                         // rewrite storage into the pre-allow-list layout: old Config{default_timeout, gov_contract},
                         // no ADMIN item, no ALLOW_LIST, cw2 version of that era
@@ -1368,6 +1403,7 @@ impl World for WorldD {
                         let get = |k: &[u8]| dump.iter().find(|(kk, _)| kk.as_slice() == k).map(|(_, v)| Binary::from(v.clone()));
                         let obs = self.obs.clone();
                         let gov = obs.as_ref().and_then(|o| o.snap.admin.clone()).unwrap_or(self.users[0].clone());
+                        v1_gov = Some(gov.clone());
                         let dt = obs.as_ref().map(|o| o.snap.default_timeout).unwrap_or(100);
                         let mut ops: Vec<(Binary, Option<Binary>)> = vec![];
                         let cfgk = rawkeys::item_key("ics20_config");
@@ -1420,6 +1456,19 @@ impl World for WorldD {
                                         self.rebooked.insert((b.0.clone(), b.1.clone()));
                                         self.meter.hit("old_version_migration_rebooked_contract_surplus");
                                     }
+                                }
+                            }
+                            if let Some(g) = &v1_gov {
+                                // the old layout named its governance contract: that address governs after the upgrade
+                                let have = self.observe().and_then(|o| o.snap.admin);
+                                if self.on("C18") && have.as_deref() != Some(g.as_str()) {
+                                    self.viol(
+                                        out,
+                                        "C18",
+                                        "governance-ne-configured",
+                                        json!({"when": "migrate_from_pre_allow_list_layout"}),
+                                        format!("the old configuration named gov_contract {}, after the migration the contract reports governance {:?}", g, have),
+                                    );
                                 }
                             }
                             if sc == "v1" {
